@@ -146,7 +146,9 @@ def run(chk, tier, seed):
             m = re.findall(r"Drive (\d+): occupied, .*? (\d+) tracks, (\d+) sectors per track", o.err.decode("latin1"))
             want = [(d, str(cyl), str(spt)) for d in (["0"] if kind == "plain1" else ["0", "2"])]
             if m != want:
-                chk.violation("geometry:%s" % kind, "container %s %dx%d attached as %r (expected %r)" % (kind, cyl, spt, m, want), dict(kind=kind, cyl=cyl, spt=spt))
+                # not a C04 matter in itself (C13 owns the choice of geometry): recorded, and the sector observations above decide
+                chk.extra.setdefault("geometry_not_as_intended", []).append(dict(kind=kind, cyl=cyl, spt=spt, attached=m))
+                chk.drift += 1
         # MMB status bytes: slot i has status i (i in 0..255); data exists for slots 0 and 15 only
         st_path = os.path.join(scratch, "status.mmb")
         status = {i: i for i in range(256)}
